@@ -66,6 +66,51 @@ def _tlc(ctx, module, cfg, **kw):
         raise
 
 
+def _chain_script(rng, cmp_, n, ncalls):
+    """Histories that make the tree as deep as it can get: keys inserted in ascending or descending order (the daemon's
+    request table, keyed by client ids handed out in order, is filled exactly so), or from the outside in, and then
+    - before anything has splayed it up - a call about an element at every depth of the chain: for m = 2..n a fresh set is
+    filled with m keys and one of find / lower / remove / replace is made for the deepest key, its neighbour, or a key at
+    a random depth; then a few more calls walk back along what is left of the chain."""
+    out = []
+    made = 0
+    ms = list(range(2, n + 1))
+    rng.shuffle(ms)
+    for m in ms:
+        if made >= ncalls:
+            break
+        out.append("R")
+        lo = rng.randint(1, n - m + 1)
+        ks = list(range(lo, lo + m))
+        order = rng.choice(["asc", "asc", "desc", "desc", "outside-in"])
+        if order == "desc":
+            ks.reverse()
+        elif order == "outside-in":
+            a, b, z = ks[:], [], True
+            while a:
+                b.append(a.pop(0) if z else a.pop())
+                z = not z
+            ks = b
+        out += ["I %d" % k for k in ks]
+        made += m
+        probes = [ks[0], ks[1 % m], ks[rng.randrange(m)]]
+        present = set(ks)
+        for k in probes[:rng.randint(1, 3)]:
+            op = rng.choice(["F", "F", "L", "D", "I"] if cmp_ != "ptr" else ["F", "F", "L", "D"])
+            if op == "D":
+                if k in present:
+                    out.append("D %d 0" % k)
+                    present.discard(k)
+            elif op == "I":
+                if k in present:
+                    out.append("I %d" % k)
+            else:
+                out.append("%s %d" % (op, k))
+            made += 1
+        out.append("W")
+    return out
+
+
 # ------------------------------------------------------------------------------------------------
 def _harness(ctx, args, timeout=600):
     """Run h_set; returns (rc, summary dict or None, stderr text)."""
@@ -501,6 +546,10 @@ def run(ctx):
         for rep in range(reps):
             cmds = _random_script(ctx.rng, cmp_, n, ncalls)
             rnd.append((cmp_, n, rep, cmds, u, ctx.rng.randrange(1, 1 << 30) if u else 0))
+    # chains (sorted fills of 2..n keys, then a call about an element at every depth)
+    for cmp_, n, ncalls in ([(c, 200, 30000) for c in CMPS] + [(c, 64, 3000) for c in CMPS] if thorough
+                            else [(c, 48, 1300) for c in CMPS]):
+        rnd.append((cmp_, n, 100, _chain_script(ctx.rng, cmp_, n, ncalls), 0, 0))
 
     def rnd_job(cmp_, n, rep, cmds, u, x):
         sp = os.path.join(sc, "rnd-%s-%d-u%d-%d.script" % (cmp_, n, u, rep))
